@@ -17,7 +17,7 @@ var Graphemes = []string{
 	"\xff", "\xc3", "\xe2\x82", "\x80", "\xa9", "\xf0\x9f\x98",
 }
 
-var paramValues = []string{"", "", "0", "1", "2", "5", "9", "10", "38", "48", "255", "65535", "1000000000", "999999999999999999", "00000000000000000000001", "99999999999999999999"}
+var paramValues = []string{"", "", "0", "1", "2", "5", "9", "10", "38", "48", "255", "65535", "1000000000", "999999999999999999", "00000000000000000000001", "99999999999999999999", "18446744073709551616", "900000000000000000000", "2147483647", "2147483648"}
 
 func bytesOf(rt *rapid.T, label string, n int, alphabet []string) []byte {
 	var out []byte
